@@ -21,7 +21,7 @@ func init() {
 	register(&Rule{ID: "C03.matrix", Floor: 18, Also: []string{"C11"},
 		// C11: a view's root is never descended into by the walk, so the search permission the parent enforces on the
 		// way down is enforced for the view only by the check on the containing directory at the point of change.
-		AlsoOnly: map[string][]string{"C11": {" insert into ", " remove from "}}, AlsoFloor: map[string]int{"C11": 9},
+		AlsoOnly: map[string][]string{"C11": {" insert into ", " remove from ", " lookup in "}}, AlsoFloor: map[string]int{"C11": 10},
 		Text: "must-check-before-act, decided on every acyclic path to the act: (1) an entry is added to / removed from directory p only after p.checkPermission(mask including OpenWrite and OpenLookup, user) returned true on that path (pointer-equality decisions on the path make the check on one name count for the other; objects allocated by the call need none); (2) the content of an existing file is truncated by a path-level call only after checkPermission including write on that file (or with the decoded open mode, whose decoder guarantees OpenTruncate => OpenWrite, C01.flags); (3) setOwner only after the administrator test; (4) the boolean result of setMode / setModTime is tested and its false branch returns an error; (5) the walk descends into a directory only after checkPermission(OpenLookup) on it; (6) OpenFile hands out a handle on an existing node only after checkPermission on it",
 		Run:  c03Matrix})
 	register(&Rule{ID: "C03.admin", Floor: 3,
@@ -382,45 +382,120 @@ func c03Matrix(rc *RuleCtx) {
 			}
 		}
 	}
-	// (5) descent in the walk
+	// (5) lookups of the walk: a name is looked up in a directory only with search permission on that directory.
+	// The directory must be tested where the lookup in it is made (every directory, the start included); testing a
+	// directory only when the walk descends into it leaves out the directory the walk starts from and is reported.
 	if f := rc.C.method("memfs", "MemFS", "searchNode"); f == nil {
 		rc.anchor("memfs.(*MemFS).searchNode")
 	} else {
-		var cell *ssa.Alloc
-		for _, r := range returnsOf(f) {
-			if al, ok := cellOf(r.Results[0]).(*ssa.Alloc); ok {
-				cell = al
-			}
-		}
 		n := 0
-		if cell != nil {
-			for _, st := range storesTo(cell) {
-				if p, _ := childrenParent(st.Val); p == "" {
-					if _, ok := stripIface(st.Val).(*ssa.TypeAssert); !ok {
-						if _, isEx := st.Val.(*ssa.Extract); !isEx {
-							continue // roots (rootNode / volume root), not a descent
-						}
+		eachInstr(f, func(in ssa.Instruction) {
+			lkp, ok := in.(*ssa.Lookup)
+			if !ok {
+				return
+			}
+			ld, ok := stripCT(lkp.X).(*ssa.UnOp)
+			if !ok || ld.Op != token.MUL {
+				return
+			}
+			fad, ok := ld.X.(*ssa.FieldAddr)
+			if !ok || fieldName(fad.X.Type(), fad.Field) != "children" {
+				return
+			}
+			dirKey := objKeyOf(fad.X).s
+			n++
+			cons := fmt.Sprintf("%s lookup in %s", funcName(f), prettyVal(fad.X, 0))
+			// uses of the looked-up node: type switches / assertions on it
+			var uses []ssa.Instruction
+			eachInstr(f, func(u ssa.Instruction) {
+				ta, ok := u.(*ssa.TypeAssert)
+				if !ok {
+					return
+				}
+				for _, rv := range resolveRaw(ta.X) {
+					if strip(rv) == ssa.Value(lkp) || stripIface(rv) == ssa.Value(lkp) {
+						uses = append(uses, ta)
 					}
 				}
-				n++
-				cons := fmt.Sprintf("%s descend into %s", funcName(f), prettyVal(st.Val, 0))
-				ok := false
-				for _, fa := range factsAt(st.Block()) {
+				if stripIface(ta.X) == ssa.Value(lkp) {
+					uses = append(uses, ta)
+				}
+			})
+			if len(uses) == 0 {
+				rc.bad(cons, lkp.Pos(), "the node found by the lookup is not examined by a type switch: the walk cannot be followed")
+				return
+			}
+			checkedHere := func(at ssa.Instruction) bool {
+				for _, fa := range factsAt(at.Block()) {
 					if c, truth, k := callFact(fa, "checkPermission"); k && truth {
-						if m, isC := constInt(callArgs(c)[0]); isC && m&lk == lk && objKeyOf(callRecv(c)).s == objKeyOf(st.Val).s {
-							ok = true
+						if m, isC := constInt(callArgs(c)[0]); isC && m&lk == lk && objKeyOf(callRecv(c)).s == dirKey {
+							return true
+						}
+					}
+					// the result of the check stored in a local and tested later (`ok := d.checkPermission(...); ... if !ok`)
+					v, truth := normCond(fa.Cond, fa.Truth)
+					for _, rv := range resolveRaw(v) {
+						if c, _ := resultOfCall(rv); c != nil && truth {
+							if fn := calleeFunc(c); fn != nil && fn.Name() == "checkPermission" {
+								if m, isC := constInt(callArgs(c)[0]); isC && m&lk == lk && objKeyOf(callRecv(c)).s == dirKey {
+									return true
+								}
+							}
 						}
 					}
 				}
-				if ok {
-					rc.good(cons, st.Pos(), "dominated by checkPermission(OpenLookup) on the directory entered")
-				} else {
-					rc.bad(cons, st.Pos(), "the walk enters a directory without a successful checkPermission(OpenLookup) on it: search permission on traversed directories is not enforced")
+				return false
+			}
+			all := true
+			for _, u := range uses {
+				if !checkedHere(u) {
+					all = false
 				}
 			}
-		}
+			if all {
+				rc.good(cons, lkp.Pos(), "the node found is used only after checkPermission(OpenLookup) succeeded on the directory it was looked up in")
+				return
+			}
+			// older shape: tested on descent
+			var cell *ssa.Alloc
+			for _, r := range returnsOf(f) {
+				if al, ok := cellOf(r.Results[0]).(*ssa.Alloc); ok {
+					cell = al
+				}
+			}
+			desc := 0
+			okAll := true
+			if cell != nil {
+				for _, st := range storesTo(cell) {
+					if p, _ := childrenParent(st.Val); p == "" {
+						if _, ok := stripIface(st.Val).(*ssa.TypeAssert); !ok {
+							if _, isEx := st.Val.(*ssa.Extract); !isEx {
+								continue
+							}
+						}
+					}
+					desc++
+					ok := false
+					for _, fa := range factsAt(st.Block()) {
+						if c, truth, k := callFact(fa, "checkPermission"); k && truth {
+							if m, isC := constInt(callArgs(c)[0]); isC && m&lk == lk && objKeyOf(callRecv(c)).s == objKeyOf(st.Val).s {
+								ok = true
+							}
+						}
+					}
+					if !ok {
+						okAll = false
+					}
+				}
+			}
+			if desc > 0 && okAll {
+				rc.bad(cons, lkp.Pos(), "directories are tested for search permission only when the walk descends into them: the directory the walk starts from (the root of the file system, of a volume, of a Sub view) is never tested, so a user without search permission on it looks names up in it (the kernel answers EACCES; through a view of a private directory everything directly below is reachable)")
+			} else {
+				rc.bad(cons, lkp.Pos(), "the walk looks a name up in a directory, and goes on with what it found, without a successful checkPermission(OpenLookup) on that directory: search permission on traversed directories is not enforced")
+			}
+		})
 		if n == 0 {
-			rc.bad(funcName(f)+" descend", f.Pos(), "no descent of the walk cursor into a child directory was recognised")
+			rc.bad(funcName(f)+" lookup", f.Pos(), "no lookup in a directory's children was recognised in the walk")
 		}
 	}
 	_ = sort.Strings
